@@ -196,17 +196,33 @@ def check(model, rep):
     for name in ('IK', 'constrainedIK'):
         fi = arm.methods[name]
         results = {}
+        clamp = {}
+
+        FREE_KERNELS = ('IKinSpace', 'IKinBody')
 
         class D(FactDomain):
+            # user = (argument of the last FK write-back, that FK call cannot clamp, kernel that produced the current solution)
             def user_call(s, call, facts, user):
                 f = call.func
                 if isinstance(f, ast.Attribute) and f.attr == 'FK' and isinstance(f.value, ast.Name) and f.value.id == 'self' and call.args:
-                    return src(call.args[0])
+                    pv = None
+                    for k in call.keywords:
+                        if k.arg == 'protect':
+                            pv = k.value
+                    if pv is None and len(call.args) >= 2:
+                        pv = call.args[1]
+                    unclamped = (isinstance(pv, ast.Constant) and pv.value is True) or (
+                        isinstance(pv, ast.Name) and (FactDomain.has(facts, True, pv.id) or FactDomain.has(facts, False, 'not ' + pv.id)))
+                    return (src(call.args[0]), unclamped, user[2] if user else None)
                 return user
 
             def user_store(s, target, value, stmt, facts, user):
-                if isinstance(target, ast.Name) and user is not None and target.id == user:
-                    return None
+                user = user or (None, False, None)
+                if isinstance(stmt, ast.Assign) and isinstance(stmt.value, ast.Call) and isinstance(stmt.value.func, ast.Attribute) \
+                        and stmt.value.func.attr in FREE_KERNELS + ('IKinSpaceConstrained', 'constrainedIK', 'IK'):
+                    user = (user[0], user[1], stmt.value.func.attr)
+                if isinstance(target, ast.Name) and user[0] is not None and target.id == user[0]:
+                    return (None, False, user[2])
                 return user
         exits = Flow(D()).run(fi.body(), {((frozenset(), None), frozenset())})
         n_ret = 0
@@ -214,7 +230,8 @@ def check(model, rep):
             if e.kind != 'return' or e.node.value is None:
                 continue
             v = e.node.value
-            (facts, fk_arg), _c = e.state
+            (facts, ust), _c = e.state
+            fk_arg, unclamped, kernel = ust if ust else (None, False, None)
             if isinstance(v, ast.Call):
                 # delegation to the sibling solver: its own obligation
                 if isinstance(v.func, ast.Attribute) and v.func.attr in ('constrainedIK', 'IK'):
@@ -232,9 +249,17 @@ def check(model, rep):
             key = 'return %s, %s [success %s]' % (sol, flag, 'possible' if may_succeed else 'excluded')
             prev = results.get(key, (True, e.node.lineno))
             results[key] = (prev[0] and ok, e.node.lineno)
+            if may_succeed and fk_arg == sol and kernel in FREE_KERNELS:
+                k2 = 'write-back of the %s solution cannot clamp' % kernel
+                prev = clamp.get(k2, (True, e.node.lineno))
+                clamp[k2] = (prev[0] and unclamped, e.node.lineno)
         for key, (ok, line) in sorted(results.items()):
             rep.ob('R07.4', fi, key, ok, 'a path can report success without having written the state through FK(<returned vector>) '
                    '(last FK argument differs or FK was not called)', line=line)
+        for key, (ok, line) in sorted(clamp.items()):
+            rep.ob('R07.4', fi, key, ok, 'the limit-free solver\'s solution is stored through FK without protect=True: FK clamps the joints to the '
+                   'limits (in place - the returned vector too), so success is reported for joints that do not reach the pose the flag was '
+                   'computed for', line=line)
         # the flag variable is only ever bound from solver results
         flags = set()
         for n in walk_own(fi.node):
